@@ -12,6 +12,8 @@ from vlib import circ, circgen, forkexec, symeval
 from vlib.symeval import SymState, lift, zb
 from checks.common import REPLAY_PRELUDE
 
+PATH_LIMIT_HITS = [0]  # per worker process
+
 LEVEL = "other"
 TECHNIQUE = "bounded SMT: three-valued z3 proxies through the real operators/evaluators; refinement/monotonicity validity queries"
 USES_STUBS = True
@@ -128,7 +130,16 @@ def _circuit_queries(p, name, c, extra_constraints=(), describe=None, rebuild=No
         return dis, tot
 
     try:
+        if PATH_LIMIT_HITS[0] >= 6:
+            # the evaluator of this tree branches on gate values at every gate: deciding circuits by forking is hopeless
+            p.queries["unknown"] += 1
+            return True
         paths, stats = forkexec.explore(build, catch=(), max_paths=512)
+    except forkexec.PathLimit:
+        PATH_LIMIT_HITS[0] += 1
+        p.queries["unknown"] += 1
+        p.inconclusive.append(f"{name}: the evaluator branches on gate values more than 512 ways on {describe or circ.describe(c)}")
+        return True
     except Exception as e:  # noqa: BLE001 - the evaluator itself raised on symbolic three-valued inputs
         p.violation(f"partial:evaluation-raises:{type(e).__name__}:{name.split('[')[0]}",
                     f"evaluating {describe or circ.describe(c)} under a partial assignment raised {type(e).__name__}: {e}",
